@@ -24,6 +24,7 @@ def run(ctx):
         _ir.check_programs(ctx, meta, IMPORTS, 'c20_greedy_check', '(fun p => t_alarms (is_pso p) (if sorts p then GRank else GSlot) p)',
                            'an individual\'s recorded fitness may increase between two records', 'c20_greedy_slot / c20_greedy_rank', only=GREEDY)
         _ir.trace_inclusion(ctx, meta)
+        _ir.state_replay(ctx, meta)
     ctx.cov['rule'] = ('theorems for all boxes/objectives/oracles/iteration counts per regenerated program; run monitor: the objective re-applied to every '
                        'stored position (local best for the swarm family) of every record, consecutive records compared per agent / per rank')
     _ir.monitor(ctx)
